@@ -1,7 +1,8 @@
 #!/bin/sh
-# builds /verif/bin/gosym from /verif/engine, offline
+# builds bin/gosym (next to this script) from engine/, offline
 set -e
-cd /verif/engine
+here="$(cd "$(dirname "$0")" && pwd)"
+cd "$here/engine"
 export GOFLAGS=-mod=mod GOPROXY=off GOTOOLCHAIN=local
-mkdir -p /verif/bin
-go1.26.8 build -o /verif/bin/gosym ./cmd/gosym
+mkdir -p "$here/bin"
+go1.26.8 build -o "$here/bin/gosym" ./cmd/gosym
